@@ -105,7 +105,7 @@ def spec(x, y, full):
 
 def unit_pred(args, prefix=(), max_depth=None):
     n = args['n']
-    core.set_width(n + 2)
+    core.set_width(max(n + 2, 10))
     harness.load_concepts()
     from concepts import lattice_members as lm
     O = bitsets_model.bitset('Objects', tuple(f'o{i}' for i in range(n)), bitsets_model.MemberBits)
